@@ -414,3 +414,17 @@ Lemma eml_attachments_count T recs :
 Proof.
   unfold eml_attachments. split; [apply map_length|]. intros i a H. apply map_nth_error. exact H.
 Qed.
+
+(* exact bytes: whatever the attachment was, if mailparser hands it over as base64 text (binary = True; what it does for
+   every transfer encoding) the EmailAttachment holds exactly the original bytes - zero bytes included *)
+Lemma eml_attachment_bytes_exact (b64decode b64encode utf8 : str -> str) :
+  (forall d, b64decode (b64encode d) = d) ->
+  forall d, eml_attachment_data b64decode utf8 true (PStr (b64encode d)) = d.
+Proof.
+  intros L d. unfold eml_attachment_data. destruct (C03.Lib.nonempty (b64encode d)) eqn:E; [apply L|].
+  apply nonempty_false_nil in E. rewrite <- (L d). rewrite E. reflexivity.
+Qed.
+
+Lemma eml_attachment_bytes_passthrough (b64decode utf8 : str -> str) b :
+  eml_attachment_data b64decode utf8 false (PBytes b) = b.
+Proof. unfold eml_attachment_data. destruct b; reflexivity. Qed.
